@@ -55,6 +55,7 @@ func init() {
 		"flag.Duration":              stubFlagVal,
 		"errors.Is":                  stubErrorsIs,
 		"errors.As":                  stubErrorsAs,
+		"net/netip.AddrFromSlice":    stubAddrFromSlice,
 		"strings.Contains":           stubStringsContains,
 		"strings.Index":              stubStringsIndex,
 		"strings.HasPrefix":          nil,
@@ -434,4 +435,13 @@ func stubStringsIndex(it *Interp, fr *frame, fn *ssa.Function, args []Value, sit
 		it.unsupported("strings.Index on symbolic strings")
 	}
 	return it.tt.Const(64, uint64(int64(strings.Index(a.s, b.s))))
+}
+
+// netip.AddrFromSlice: the address value is opaque to the properties checked
+// (it is stored, never inspected); ok iff the slice has 4 or 16 bytes.
+func stubAddrFromSlice(it *Interp, fr *frame, fn *ssa.Function, args []Value, site ssa.Instruction) Value {
+	sl := args[0].(*SliceV)
+	n := it.sliceLen(sl)
+	ok := it.tt.BOr(it.tt.Eq(n, it.tt.Const(64, 4)), it.tt.Eq(n, it.tt.Const(64, 16)))
+	return TupleV{it.zero(fn.Signature.Results().At(0).Type()), ok}
 }
